@@ -24,6 +24,9 @@ const (
 	SessionSMSSecret     = "sms_secret"
 	SessionSMSLast       = "sms_last"
 	SessionSMSPendingPID = "sms_pending"
+	// SessionSMSSecretNumber is the phone number the code in SessionSMSSecret
+	// was sent to: a code only proves possession of that number.
+	SessionSMSSecretNumber = "sms_secret_number"
 )
 
 // Form value constants
@@ -219,6 +222,7 @@ func (s *SMS) SendCodeToUser(w http.ResponseWriter, r *http.Request, pid, number
 
 	authboss.PutSession(w, SessionSMSLast, strconv.FormatInt(time.Now().UTC().Unix(), 10))
 	authboss.PutSession(w, SessionSMSSecret, code)
+	authboss.PutSession(w, SessionSMSSecretNumber, number)
 
 	logger.Infof("sending sms for %s to %s", pid, number)
 	if err := s.Sender.Send(r.Context(), number, code); err != nil {
@@ -394,6 +398,17 @@ func (s *SMSValidator) validateCode(w http.ResponseWriter, r *http.Request, user
 		code, ok := authboss.GetSession(r, SessionSMSSecret)
 		if !ok || len(code) == 0 {
 			return errors.Errorf("no code in session for user %s", user.GetPID())
+		}
+
+		// The code in the session only proves possession of the number it was
+		// sent to. The rate limit, or a code requested on another page (login,
+		// remove, an earlier setup), can leave a code for a different number.
+		wantNumber := user.GetSMSPhoneNumber()
+		if s.Page == PageSMSConfirm {
+			wantNumber, _ = authboss.GetSession(r, SessionSMSNumber)
+		}
+		if sentTo, ok := authboss.GetSession(r, SessionSMSSecretNumber); ok && sentTo != wantNumber {
+			return errors.Errorf("no code for this number in session for user %s", user.GetPID())
 		}
 
 		verified = 1 == subtle.ConstantTimeCompare([]byte(inputCode), []byte(code))
